@@ -224,6 +224,10 @@ RoundTripOK ==
 \* the marshalling stack machine (separators decided by peeking past NOP gaps) produces the canonical text
 MachineAgrees ==
   copy => (out.text = MarshalError \/ MachineOutput(tape, sb) = out.text)
+\* ... and from every inner value: iterators scoped on the value give its text, iterators whose scope is the rest of the
+\* enclosing container are refused (MarshalMachine!InnerAgrees); LegacySkipAgrees is the negative control (must be violated)
+InnerMarshalAgrees == copy => InnerAgrees(tape, sb, FALSE)
+LegacySkipAgrees == copy => InnerAgrees(tape, sb, TRUE)
 \* an operation that is refused changes nothing
 RefusedIsNoop == [][out'.err => (tape' = tape /\ sb' = sb /\ docs' = docs)]_vars
 \* strings are only ever appended to the buffer
